@@ -786,8 +786,13 @@ class Normaliser:
         v.body = self._expand_cms(v.body)
         if self.presplit:
             v.body = self._presplit(v.body, v)
+        v.body = self._split_shortcircuit(v.body)
         v.body = self._hoist_block(v.body)
         v.body = self.inl._stmts(v.body, 0)
+        for _ in range(3):
+            v.body, again = self._fold_flags(v.body, v)
+            if not again:
+                break
         self._expand_minmax(v)
         v.body = self._loops_over_comprehensions(v.body, v)
         if self.const_dispatch:
@@ -845,6 +850,81 @@ class Normaliser:
                                 self.expanded_cms.add(call.func.attr)
             out.extend(new if new is not None else [st])
         return out
+
+    # -- `if a and self._helper(): body` : the helper runs only when `a` holds - nest the tests before the helper is expanded in front of them
+    def _split_shortcircuit(self, stmts):
+        from sa.props._lib_h_d import _clone
+        out = []
+        for st in stmts:
+            for field in ("body", "orelse", "finalbody"):
+                if isinstance(getattr(st, field, None), list) and not isinstance(st, (ast.FunctionDef, ast.AsyncFunctionDef, ast.ClassDef)):
+                    setattr(st, field, self._split_shortcircuit(getattr(st, field)))
+            for h in getattr(st, "handlers", []) or []:
+                h.body = self._split_shortcircuit(h.body)
+            if isinstance(st, ast.If) and isinstance(st.test, ast.BoolOp) and len(st.test.values) >= 2 \
+                    and any(self.inl.helper_of(c) is not None for v_ in st.test.values[1:] for c in ast.walk(v_) if isinstance(c, ast.Call)):
+                first, rest = st.test.values[0], st.test.values[1:]
+                rest_t = rest[0] if len(rest) == 1 else ast.BoolOp(op=st.test.op, values=rest)
+                if isinstance(st.test.op, ast.And):
+                    inner = ast.If(test=rest_t, body=st.body, orelse=[_clone(x) for x in st.orelse])
+                    new = ast.If(test=first, body=[inner], orelse=st.orelse)
+                else:
+                    inner = ast.If(test=rest_t, body=[_clone(x) for x in st.body], orelse=st.orelse)
+                    new = ast.If(test=first, body=st.body, orelse=[inner])
+                ast.copy_location(new, st)
+                ast.copy_location(inner, st)
+                out.extend(self._split_shortcircuit([ast.fix_missing_locations(new)]))
+                continue
+            out.append(st)
+        return out
+
+    # -- a flag set to a constant at the end of both branches of an `if` and tested by the statement that follows (what an expanded boolean helper
+    #    looks like) : the following test is decided in each branch
+    def _fold_flags(self, stmts, func):
+        from sa.props._lib_h_d import _clone
+        again = False
+        out = []
+        i = 0
+        for st in stmts:
+            for field in ("body", "orelse", "finalbody"):
+                if isinstance(getattr(st, field, None), list) and not isinstance(st, (ast.FunctionDef, ast.AsyncFunctionDef, ast.ClassDef)):
+                    new_, a2 = self._fold_flags(getattr(st, field), func)
+                    setattr(st, field, new_)
+                    again = again or a2
+            for h in getattr(st, "handlers", []) or []:
+                h.body, a2 = self._fold_flags(h.body, func)
+                again = again or a2
+        while i < len(stmts):
+            st = stmts[i]
+            nxt = stmts[i + 1] if i + 1 < len(stmts) else None
+
+            def flag_const(branch):
+                if branch and isinstance(branch[-1], ast.Assign) and len(branch[-1].targets) == 1 and isinstance(branch[-1].targets[0], ast.Name) \
+                        and isinstance(branch[-1].value, ast.Constant) and isinstance(branch[-1].value.value, bool):
+                    return branch[-1].targets[0].id, branch[-1].value.value
+                return None
+            if isinstance(st, ast.If) and isinstance(nxt, ast.If) and st.orelse:
+                a, b = flag_const(st.body), flag_const(st.orelse)
+                t = nxt.test
+                neg = isinstance(t, ast.UnaryOp) and isinstance(t.op, ast.Not)
+                tn = t.operand if neg else t
+                if a and b and a[0] == b[0] and isinstance(tn, ast.Name) and tn.id == a[0] \
+                        and sum(1 for x in ast.walk(func) if isinstance(x, ast.Name) and x.id == a[0]) == 3:
+                    def branch_for(k):
+                        take = nxt.body if (k != neg) else nxt.orelse
+                        return [_clone(x) for x in take]
+                    st.body = st.body[:-1] + branch_for(a[1]) or [ast.Pass()]
+                    st.orelse = st.orelse[:-1] + branch_for(b[1]) or [ast.Pass()]
+                    st.body = st.body or [ast.copy_location(ast.Pass(), st)]
+                    st.orelse = st.orelse or [ast.copy_location(ast.Pass(), st)]
+                    ast.fix_missing_locations(st)
+                    out.append(st)
+                    i += 2
+                    again = True
+                    continue
+            out.append(st)
+            i += 1
+        return out, again
 
     # -- x > min(a, b)  ==  x > a or x > b   (and the other seven combinations): a comparison against a min / max of pure operands is the
     #    conjunction / disjunction of the single comparisons
